@@ -3,7 +3,7 @@ whether the caller's input object changed, and whether module-level state of the
 
     python c11worker.py <repo> <history.json>     →  one JSON document on stdout
 history.json = {"problems": [dict, …], "ops": [[kind, i], …]}
-kinds: svc_dict, svc_model (a new validated model per call), svc_same_model (one model object per problem, reused),
+kinds: svc_dict, svc_dict_of_models (dictionary holding validated records), svc_model (a new validated model per call), svc_same_model (one model object per problem, reused),
        pp (one PinchProblem wrapper reused for the whole history: load(model) + target()).
 """
 import copy
@@ -68,6 +68,19 @@ def main():
                 d = copy.deepcopy(problems[i]); d0 = canon(d)
                 res = pinch_analysis_service(d, f"P{i}")
                 rec["input_unchanged"] = canon(d) == d0
+            elif kind == "svc_dict_of_models":
+                # a dictionary whose lists already hold validated stream / utility records
+                m = TargetInput.model_validate(copy.deepcopy(problems[i]))
+                d = {"streams": list(m.streams), "utilities": list(m.utilities), "options": m.options}
+                if m.zone_tree is not None:
+                    d["zone_tree"] = m.zone_tree
+                m0 = canon(m.model_dump(mode="json"))
+                res = pinch_analysis_service(d, f"P{i}")
+                m1 = canon(m.model_dump(mode="json"))
+                rec["input_unchanged"] = m1 == m0
+                if m1 != m0:
+                    a, b = json.loads(m0), json.loads(m1)
+                    rec["input_diff"] = sorted({k for k in a if a[k] != b.get(k)})
             elif kind in ("svc_model", "svc_same_model"):
                 if kind == "svc_model":
                     m = TargetInput.model_validate(copy.deepcopy(problems[i]))
